@@ -9,6 +9,29 @@ HERE = os.path.dirname(os.path.dirname(os.path.abspath(__file__)))
 # id -> (engine, level category, technique, level text, level note, design ref)
 CHECKS = {}
 
+# sub-passes added after the first version (DESIGN.md 9.4 / 9.5): appended to the level note of each check
+EXTRA = {
+    'C01': 'Also enumerated: user generators with negative base steps and with one step too few; array calls in C and Fortran order (the latter with numpy-integer n / order, built positionally and used through a deep copy) and with a function whose values have a complex type with zero imaginary part; integer-valued float exponents.',
+    'C02': 'Also: short / long / steep / single-step / negative-step generators; truthy spellings of full_output and full_output assigned after construction; Hessian / Hessdiag (C04 space), Jacobian / Gradient (C03 space incl. matrix-valued maps); the record of an object whose function was assigned after construction.',
+    'C03': 'Also: matrix-shaped x0 and full-rank directions; view-returning selection maps; step_ratio and negative-step options on affine maps; read-only / memoised results; aliased periodic entries; maps leaving their domain at the largest steps; affine map + narrow far feature; forms of the user callable; step options given explicitly as None.',
+    'C04': 'Also: quartic polynomials on four steps with scalar / negative / per-coordinate (ndarray, list, tuple + step_nom) base steps; buffered and read-only length-1 results; functions overflowing or leaving their domain in some coordinates; the function assigned through .fun after construction.',
+    'C05': 'Also: coordinates +-1e15; configuration assigned after construction; what f returns (NaN / inf at x, NaN everywhere); Gradient at n x m points; complex points (point + 2j) with the real-step methods.',
+    'C06': 'Also: configuration assigned after construction; several rule objects alive; numpy-integer n / order; the ratio as 0-d array / numpy scalar / float; the float application on step sequences of both signs and on complex-valued monomials.',
+    'C07': 'Also: integer-typed ratios and sequences; object-reuse histories; a negative start step; positional construction; the second spelling extrapolate(); single columns as 1-d sequences; estimates real and >= 0.',
+    'C08': 'Also: memory layouts, nested lists, integer dtype, masked arrays with nothing masked; functions returning object-dtype arrays or plain Python numbers; n = 0; forms of the extra-argument list; re-entrant use.',
+    'C09': 'Also: in-place array arguments, aborted calls, multivariate classes, nested (re-entrant) use with own and shared generators, construction with step options next to a shared generator, the step attribute assigned after construction, a user function that emits warnings.',
+    'C10': 'Also: negative, per-coordinate and complex base steps; integer-typed and complex points; numpy-integer n / order; reuse, interleaved requests and copies of used generators; the raw-order coupling with the rule length.',
+    'C11': 'Also: the menu repeated after a suite of valid calls; tiny imaginary parts; unknown paths with legitimate companion options and at regular points; the cheap misuse kinds once more in an interpreter started with -O.',
+    'C12': 'Also: base points exactly +-0, near -1, -1e4; arrays with a singular element; logaddexp / logaddexp2; ring operations and augmented assignment on two independent operands against exact rational arithmetic; the exponent as 0-d array / complex / numpy scalar / Fraction / Bicomplex.',
+    'C13': 'Also: broadcast-compatible shapes; nested lists and tuples; 0-d arrays; all of V^3 once more with warnings turned into errors by the caller.',
+    'C14': 'Also: model sequences scaled by 2^+-70, 2^+-150, 2^190, 2^-300; the Dea tree (one level less) under numpy floating-point traps (divide, over, invalid = raise); the table size set through the limexp attribute.',
+    'C15': 'Also: call-order histories; node families with offsets 1e-10, spacing 400, gaps of 2^-58; every request repeated with numpy-scalar x0 and numpy-integer / bool n.',
+    'C16': 'Also: call-order histories; grids scaled by 4096 and 2^-30; numpy-integer n, m and the grid as a list; column and two-column samples of a vector function.',
+    'C17': 'Also: the radius search against a scripted environment (protocol model), explicit min_iter; one Taylor object at several expansion points, with a function returning length-1 arrays for scalar arguments; n as numpy integer.',
+    'C18': 'Also: two distinct singular points in every layout; Residue on arrays of poles; read-only results; masked-array and list forms of z0; narrow g (width 3e-3 .. 2e-5); numpy-integer orders; Residue objects used through a deep copy.',
+    'C19': 'Also: small-coordinate and integer points; hairline and half-open boxes; bounds as tuple / list / (2, n) array; forms of the extra-argument list and keywords named like options; wrapper reuse, re-entrant use of the same and of another wrapper object; positional construction.',
+}
+
 
 def add(pid, engine, cat, technique, text, note, ref):
     CHECKS[pid] = dict(engine=engine, cat=cat, technique=technique, text=text, note=note, ref=ref)
@@ -17,7 +40,7 @@ def add(pid, engine, cat, technique, text, note, ref):
 add('C05', 'E1', 'exploration',
     'bounded-exhaustive enumeration of configurations on the real code; exact predicates on every recorded argument of the user function',
     'Every (class, method, n, order, dimension, x) cell crossed with every step-generator option vector within a stated number of deviations from the defaults is executed on the real classes; every argument the user function receives is checked against exact admissibility predicates (one-sidedness, mirror symmetry, real part == x, distance <= width x largest generated step, coordinates moved). The property is a crisp invariant over a finite configuration space, so complete enumeration of that space is the right level; nothing is sampled.',
-    'Real-valued x only on the 4-point pool x dimension 1..5; floating additions x+-h are given 4 ulp when matching mirror images; the largest step is read from the object\'s own public generator.',
+    'The main product uses real x on the 6-point pool x dimension 1..5; floating additions x+-h are given 4 ulp when matching mirror images; the largest step is read from the object\'s own public generator.',
     'DESIGN.md section 5/C05')
 
 add('C06', 'E1', 'exploration',
@@ -142,7 +165,7 @@ def main():
             replay_cmd_template='./check %s --replay {path}' % pid,
             engine=c['engine'],
             level_claimed=dict(category=c['cat'], text=c['text'], design_ref=c['ref']),
-            level_note=c['note'],
+            level_note=c['note'] + (' ' + EXTRA[pid] if pid in EXTRA else ''),
             technique=c['technique'],
         ))
         for e in ENGINES:
